@@ -198,9 +198,12 @@ _SHARD_FN = None
 
 
 def _shard_worker(args):
-    name, prefix, max_paths, tmo = args
+    name, prefix, max_paths, deadline = args
     from vt import symx
     symx._CUR = None
+    tmo = None
+    if deadline is not None:
+        tmo = max(deadline - time.time(), 0.01)
     eng = symx.Engine(name=name, max_paths=max_paths, timeout_s=tmo)
     try:
         eng.explore(_SHARD_FN, root_prefix=prefix)
@@ -231,9 +234,9 @@ def explore_case(case, fn, tmo):
     if frontier:
         import multiprocessing
         _SHARD_FN = fn
-        left = (tmo - (time.time() - t0)) if tmo else None
+        deadline = (t0 + tmo) if tmo else None
         ctx = multiprocessing.get_context('fork')
-        jobs = [(case.name, p, case.max_paths, left) for p in frontier]
+        jobs = [(case.name, p, case.max_paths, deadline) for p in frontier]
         with ctx.Pool(min(case.procs, len(jobs))) as pool:
             sms += pool.map(_shard_worker, jobs, chunksize=1)
     sm = merge_summaries(sms)
@@ -395,3 +398,32 @@ def replay_case(cases, case_name, model):
             ce.run(_wrap(case.fn))
             return ce.failed
     raise KeyError(case_name)
+
+
+def run_strong_test(name, timeout=300, env_extra=None):
+    """Strong replay through the repo's own test fixtures (real db-api on
+    sqlite / real engine): runs /verif/strong/<name> with pytest from /repo.
+    Returns (reproduced, text): reproduced = the test FAILED (the test
+    asserts the property)."""
+    import subprocess
+    path = os.path.join(VERIF, 'strong', name)
+    env = dict(os.environ)
+    env.update(env_extra or {})
+    env.pop('PYTHONPATH', None)
+    try:
+        p = subprocess.run(
+            ['timeout', str(timeout), '/venv/bin/python', '-m', 'pytest',
+             '-q', '-p', 'no:cacheprovider', '-x', '-s', path],
+            cwd=REPO, env=env, stdout=subprocess.PIPE,
+            stderr=subprocess.STDOUT, timeout=timeout + 30)
+        out = p.stdout.decode('utf8', 'replace')
+    except subprocess.TimeoutExpired:
+        return False, 'strong replay timed out'
+    tail = '\n'.join(l for l in out.splitlines()
+                     if 'STRONG' in l or 'passed' in l or 'failed' in l
+                     or 'AssertionError' in l)[-1500:]
+    if 'STRONG-VIOLATION' in out:
+        return True, tail
+    if ' passed' in out:
+        return False, tail
+    return False, 'strong replay inconclusive: ' + out[-800:]
